@@ -5,6 +5,7 @@
  *    item[2*i] = theitem[i].data, item[2*i+1] = theitem[i].info;  key[2*g] = thekey[g].info, key[2*g+1] = thekey[g].idx
  * (both structs are two ints, no padding). */
 #include "verif.h"
+#include "rep.h"
 
 /* `throw SPxException("Invalid index");`  ->  verif_throw(); unreachable.  verif_throw() carries the obligation
  * "no exception": every contract in this unit has a precondition under which DataSet must not throw. */
@@ -109,9 +110,15 @@ struct DataSetHost
    }
 };
 
-#define MKSET(s) DataSetHost s; s.theitem = (DataSetHost::Item*)item; s.thekey = (DataKey*)key; s.themax = themax; \
-   s.thesize = *thesize; s.thenum = *thenum; s.firstfree = *firstfree
-#define PUTSET(s) *thesize = s.thesize; *thenum = s.thenum; *firstfree = s.firstfree
+/* The wrapper builds typed arrays Item[CAP], DataKey[CAP] from the raw int arrays of the C contract, cell by
+ * cell and without a loop (rep.h), runs the real body on them and copies them back. */
+#define CPIN(i)  if((i) < themax) { items_[i].data = item[2 * (i)]; items_[i].info = item[2 * (i) + 1]; \
+                                    keys_[i].info = key[2 * (i)]; keys_[i].idx = key[2 * (i) + 1]; }
+#define CPOUT(i) if((i) < themax) { item[2 * (i)] = items_[i].data; item[2 * (i) + 1] = items_[i].info; \
+                                    key[2 * (i)] = keys_[i].info; key[2 * (i) + 1] = keys_[i].idx; }
+#define MKSET(s) DataSetHost s; DataSetHost::Item items_[CAP]; DataKey keys_[CAP]; s.theitem = items_; s.thekey = keys_; s.themax = themax; \
+   s.thesize = *thesize; s.thenum = *thenum; s.firstfree = *firstfree; REP_DO(CPIN)
+#define PUTSET(s) *thesize = s.thesize; *thenum = s.thenum; *firstfree = s.firstfree; REP_DO(CPOUT)
 
 #ifdef INST_create
 /* returns 1 iff the pointer handed out is the data field of the cell named by the new key */
